@@ -148,6 +148,17 @@ def check(case):
                 afloor = 1e-14 * float(np.sqrt(np.sum(np.asarray(wv) ** 2) * np.sum(t**2))) * max(1.0, float(np.max(np.abs(u))))
                 res.claim("vjp_is_adjoint_of_jvp:" + name, abs(a - b), 1e-11 * sc + afloor + 1e-300, key=k + ":adjoint")
         if name == "step":
+            # "derivatives are finite wherever the step itself is finite": also at the rest state u = 0 (exact
+            # zeros are where pow / abs / sqrt-type derivative rules break down)
+            z0 = jnp.zeros_like(ju)
+            o0 = np.asarray(S(z0))
+            if np.all(np.isfinite(o0)):
+                ok0, r0 = res.lib("jvp_at_zero_state", lambda: jax.jvp(S, (z0,), (jt,)), key=k + ":jvp_zero_state")
+                if ok0:
+                    res.true("jvp_finite_at_zero_state", bool(np.all(np.isfinite(np.asarray(r0[1])))), key=k + ":jvp_finite_zero_state", msg="NaN/inf in forward derivative at u = 0")
+                ok0, v0 = res.lib("vjp_at_zero_state", lambda: jax.vjp(S, z0)[1](jw)[0], key=k + ":vjp_zero_state")
+                if ok0:
+                    res.true("vjp_finite_at_zero_state", bool(np.all(np.isfinite(np.asarray(v0)))), key=k + ":vjp_finite_zero_state", msg="NaN/inf in reverse derivative at u = 0")
             res.nontrivial = bool(np.sqrt(np.sum(Jt**2)) > 1e-9 * np.sqrt(np.sum(t**2)))
             if fam in LINEAR:
                 St = np.asarray(S(jt))
@@ -200,6 +211,8 @@ def p_strategy(stratum, tier, frame):
             which=st.just(frame),
             sk=st.sampled_from(["white_mean", "white", "const"]),
             n=st.sampled_from([1, 1, 3]),
+            # coefficient lists with one entry exactly 0.0 (the library defaults, e.g. (0, -1, 0), contain zeros)
+            zero_comp=st.sampled_from([None, 1, None, 0, 2]),
         )
     )
 
@@ -228,6 +241,11 @@ def p_check(case):
     elif name == "domain_extent":
         base = np.asarray(spec["L"], dtype=float)
     else:
+        if name in TUPLE_PARAMS and case.get("zero_comp") is not None and len(spec["kw"][name]) > 1:
+            lst = list(spec["kw"][name])
+            lst[case["zero_comp"] % len(lst)] = 0.0
+            spec = dict(spec, kw=dict(spec["kw"], **{name: type(spec["kw"][name])(lst)}))
+            res.tag("list_entry_exactly_zero")
         base = np.asarray(spec["kw"][name], dtype=float)
         if name in VEC_PARAMS and base.ndim == 0 and cls in ("Advection", "Diffusion", "AdvectionDiffusion", "Dispersion"):
             base = np.ones(D) * base
@@ -256,6 +274,10 @@ def p_check(case):
     # direction scaled per component (coefficients of different derivative orders differ by many decades):
     # a step h along dv changes every component by about h relative to its own size
     comp = np.maximum(np.abs(base), 1e-3 * max(float(np.max(np.abs(base))), 1e-12)) if base.ndim else np.asarray(max(abs(float(base)), 0.1))
+    if base.ndim and any(x in name for x in ("nonlinear", "polynomial")):
+        # scales of nonlinear terms are of one physical order: entries that are exactly zero (library defaults such as
+        # (0, -1, 0)) are perturbed as strongly as the others, so that a derivative that ignores them is visible
+        comp = np.where(base == 0, 0.3 * max(float(np.max(np.abs(base))), 0.1), comp)
     dv = (rng.standard_normal(base.shape) * comp) if base.ndim else comp
     jb, jd = jnp.asarray(base), jnp.asarray(dv)
     ok, r = res.lib("jvp_param", lambda: jax.jvp(f, (jb,), (jd,)), key=k + ":jvp")
